@@ -363,7 +363,9 @@ EntryJudgeSharp ==
 \* big pairs: on the exponents TLC can hold, the residue judge accepts the transcribed routine
 \* through every entry and rejects the exchanged order exactly when the order matters modulo
 \* some prime
-BigExact(c) == IPowG(2, c.k) + c.a
+RECURSIVE TwoTo(_)
+TwoTo(k) == IF k = 0 THEN 1 ELSE 2 * TwoTo(k - 1)
+BigExact(c) == TwoTo(c.k) + c.a
 BigOps(c) == IF c.sw = 0 THEN << BigExact(c), c.sm >> ELSE << c.sm, BigExact(c) >>
 BigPredicted(c, fw) ==
     [es |-> [i \in 1..Len(c.eps) |->
